@@ -198,10 +198,29 @@ fn random_token(r: &mut Rng, instr: &[String]) -> String {
                 "BOOL[1,0é", "INT]", "INT[[1]",
             ])
             .to_string(),
-        9 => r.pick(&["x", "foo", "a.b", "CODE.", ".DUP", "integer.+", "(x", "x)", "()", "((", "é", "名前", "a\u{0301}", "😀"]).to_string(),
+        9 => r.pick(&["x", "foo", "a.b", "CODE.", ".DUP", "integer.+", "(x", "x)", "()", "((", "é", "名前", "a\u{0301}", "😀", "\u{feff}x", "\u{feff}", "\u{200b}y", "z\u{200d}", "\u{ad}q", "\u{2060}w"]).to_string(),
         10 => {
             let n = 1 + r.below(12);
             (0..n).map(|_| char::from_u32(33 + r.below(94) as u32).unwrap()).filter(|c| *c != '(' && *c != ')').collect::<String>() + "z"
+        }
+        11 => {
+            // LONG spellings of numbers (heavy-tailed token length): leading zeros, trailing fraction
+            // zeros, long exponents, digit strings beyond every integer type; well formed for
+            // Rust's from_str and therefore numbers, whatever their length
+            let pad = "0".repeat(match r.below(4) {
+                0 => r.below(8),
+                1 => 20 + r.below(60),
+                2 => gen::depth_tail(r),
+                _ => 1,
+            });
+            match r.below(6) {
+                0 => format!("{}{}", pad, r.below(1000)),
+                1 => format!("-{}{}", pad, r.below(1000)),
+                2 => format!("0.5{}", pad),
+                3 => format!("{}1.25", pad),
+                4 => format!("1{}", pad),
+                _ => format!("1e{}2", pad),
+            }
         }
         _ => gen::int(r, Vals::Small).to_string(),
     }
